@@ -328,7 +328,10 @@ def plan_C10(prop, tier):
     fl = ("NM", "MO", "TR") if tier == "quick" else ("NM", "TM", "MO", "CO", "TR", "INT")
     cfgs = grid(fl, W1_NS[tier], (1,)) + grid(("NM",), (0, 2), (0,))
     focus = G_ALL & ~(G_CTOR | G_OBS)
-    return run_svmc(prop, tier, w1_jobs(tier, cfgs, focus, 0))
+    jobs = w1_jobs(tier, cfgs, focus, 0)
+    # same-allocator copy assignment / append between two containers (W2)
+    jobs += w2_jobs(tier, ("NM", "TR"), W2_PAIRS[tier], (-1, 0, 1, 9), 0)
+    return run_svmc(prop, tier, jobs)
 
 
 def plan_C11(prop, tier):
@@ -569,6 +572,178 @@ def plan_C18(prop, tier):
     return rep
 
 
+def twin_pairs(tier):
+    ns = (0, 2, 3) if tier == "quick" else (0, 1, 2, 3, 5)
+    pairs = []
+    for n in ns:
+        pairs.append((("NM", n, 1), ("TR", n, 1)))
+    for n in (0, 2):
+        pairs.append((("NM", n, 0), ("INT", n, 0)))
+    return pairs
+
+
+def first_difference(job_a, job_b, outdir):
+    """Re-run two twin jobs with --dump and return a description of the first differing record."""
+    lines = []
+    for j in (job_a, job_b):
+        dump = os.path.join(outdir, j.label + ".dump")
+        subprocess.run([j.binary.path()] + j.args + ["--dump", dump, "--out", os.path.join(outdir, j.label + ".again.json")],
+                       stdout=subprocess.DEVNULL, stderr=subprocess.DEVNULL)
+        with open(dump) as f:
+            lines.append(f.read().splitlines())
+        os.unlink(dump)
+    a, b = lines
+    for k in range(min(len(a), len(b))):
+        if a[k] != b[k]:
+            return "record #%d differs: %s gives `%s`, %s gives `%s`" % (k, job_a.binary.name, a[k], job_b.binary.name, b[k]), a[k]
+    return "traces have different lengths (%d vs %d records)" % (len(a), len(b)), ""
+
+
+def plan_C13(prop, tier):
+    # (1) twin differential: trivially copyable vs non-trivial twin, same graph, allocation faults only
+    pairs = twin_pairs(tier)
+    jobs = []
+    for (a, b) in pairs:
+        for cfg in (a, b):
+            bn = w1bin(*cfg)
+            jobs.append(Job("%s-twin" % bn.name, bn, svmc_args(tier, G_ALL, 1, fault_kinds=1)))
+    # trivially copyable worlds with full fault injection (iterator faults) + W2 trivial
+    jobs += w1_jobs(tier, grid(("TR", "INT"), W1_NS[tier], (1,)), G_ALL, 1)
+    jobs += w2_jobs(tier, ("TR",), W2_PAIRS[tier], (-1, 0, 7), 1)
+    rep = run_svmc(prop, tier, jobs)
+    if BUILD_ONLY or rep.get("harness_errors"):
+        return rep
+    bylabel = {j.label: j for j in jobs}
+    outdir = os.path.join(svlib.OUT, prop)
+    twins = []
+    for (a, b) in pairs:
+        ja, jb = bylabel["%s-twin" % w1bin(*a).name], bylabel["%s-twin" % w1bin(*b).name]
+        ra, rb = ja.result, jb.result
+        same = (ra["digest"] == rb["digest"] and ra["stats"]["transitions"] == rb["stats"]["transitions"]
+                and ra["stats"]["states"] == rb["stats"]["states"])
+        twins.append({"non_trivial": ra["config"], "trivial": rb["config"], "digest": ra["digest"], "equal": same,
+                      "records": ra["stats"]["transitions"] + ra["stats"]["fault_trials"]})
+        if not same and not ra["violations"] and not rb["violations"]:
+            detail, line = first_difference(ja, jb, outdir)
+            rep["violations"].append({
+                "oracle": "twin.trace-differs", "op": "trace", "detail": "trivially copyable twin behaves differently: " + detail,
+                "config": rb["config"], "count": 1, "desc": detail,
+                "replay": {"kind": "twin", "binaries": [bin_spec(ja.binary), bin_spec(jb.binary)], "args": ja.args}})
+    rep["coverage"]["twin_differential"] = twins
+    rep["summary"] += "; twin differential: %d pairs, %d identical" % (len(twins), sum(1 for t in twins if t["equal"]))
+    for part in (conv_part, arch_part):
+        cov, viol, errs, summ = part(tier)
+        if errs:
+            return {"harness_errors": errs}
+        rep["coverage"].update(cov)
+        rep["violations"] += viol
+        rep["summary"] += "; " + summ
+    return rep
+
+
+def first_error(log):
+    for ln in log.splitlines():
+        if "error" in ln:
+            return ln.strip()[:300]
+    return log.strip()[-300:]
+
+
+def conv_part(tier):
+    """C13 (2): conversion grid, one destination-type row per TU and standard; a row that does not
+    compile is re-compiled cell by cell so that the offending (To, From) cells are named."""
+    import grids
+    stds = [("g++", "17"), ("g++", "20")] if tier == "quick" else [("g++", "11"), ("g++", "17"), ("g++", "20"), ("clang++", "17"), ("clang++", "20")]
+    rows = grids.conv_rows(tier)
+    viol, errs = [], []
+    plan = []
+    for (c, sd) in stds:
+        for rk, cells in rows:
+            plan.append((c, sd, rk, cells, Bin("conv-%s-%s-std%s" % (rk, c.replace("+", "p"), sd), grids.conv_source(rk, cells), std=sd, cxx=c)))
+    fails = svlib.build_all([p[4] for p in plan])
+    failed = {b.path(): log for b, log in fails}
+    runnable = []
+    noncompiling = {}
+    for (c, sd, rk, cells, b) in plan:
+        if b.path() not in failed:
+            runnable.append((b, []))
+            continue
+        cellbins = [(ck, Bin("convcell-%s-%s-std%s" % (ck.replace("<-", "_from_"), c.replace("+", "p"), sd),
+                             grids.conv_source(ck, [(ck, code)]), std=sd, cxx=c)) for ck, code in cells]
+        cfails = svlib.build_all([cb for _, cb in cellbins])
+        cfailed = {cb.path(): log for cb, log in cfails}
+        if not cfailed:
+            errs.append("conversion row %s does not compile as a whole but every cell does: %s" % (rk, first_error(failed[b.path()])))
+        for ck, cb in cellbins:
+            if cb.path() in cfailed:
+                noncompiling.setdefault(ck, []).append(("%s -std=c++%s" % (c, sd), first_error(cfailed[cb.path()]), cb))
+            else:
+                runnable.append((cb, []))
+    if BUILD_ONLY:
+        return {}, [], errs, ""
+    for ck, lst in sorted(noncompiling.items()):
+        where = ", ".join(x[0] for x in lst)
+        viol.append({"oracle": "conv.does-not-compile", "op": ck,
+                     "detail": "small_vector<To> cannot be built/assigned/inserted from a range of From for %s under %s although the conversion is implicit and the generic (non-contiguous) path accepts it: %s" % (ck, where, lst[0][1]),
+                     "config": where, "count": len(lst), "desc": ck,
+                     "replay": {"kind": "compile", "binary": bin_spec(lst[0][2])}})
+    res, rerrs = run_table_bins(runnable)
+    errs += rerrs
+    cases = elements = 0
+    for b, args, j, out in (res or []):
+        cases += j["cases"]
+        elements += j["elements"]
+        if j["mismatches"]:
+            viol.append({"oracle": "conv.value-mismatch", "op": j["row"], "detail": j["first"] + " [" + b.cxx + " -std=c++" + b.std + "]",
+                         "config": b.name, "count": j["mismatches"], "desc": j["first"],
+                         "replay": {"kind": "table", "binary": bin_spec(b), "args": []}})
+    cov = {"conversion_grid": {"rows": len(rows), "cells": sum(len(c) for _, c in rows), "builds": len(stds),
+                               "operation_cases": cases, "elements_compared": elements,
+                               "cells_not_compiling": sorted(noncompiling)}}
+    return cov, viol, errs, "conversion grid: %d cells x %d builds, %d operation cases, %d elements compared" % (
+        cov["conversion_grid"]["cells"], len(stds), cases, elements)
+
+
+def arch_part(tier):
+    """C13 (3): minimal-requirement archetypes, trivial vs non-trivial twin (differential)."""
+    import grids
+    stds = [("g++", "17")] if tier == "quick" else [("g++", "11"), ("g++", "17"), ("g++", "20"), ("clang++", "17")]
+    viol, errs = [], []
+    n = both = 0
+    skipped = []
+    for (c, sd) in stds:
+        cases = grids.arch_sources()
+        bins = []
+        for (name, tsrc, nsrc) in cases:
+            key = name.replace("/", "_").replace("+", "_")
+            bins.append((name, Bin("arch-%s-triv-%s-std%s" % (key, c.replace("+", "p"), sd), tsrc, std=sd, cxx=c, opt="-O0"),
+                         Bin("arch-%s-nontriv-%s-std%s" % (key, c.replace("+", "p"), sd), nsrc, std=sd, cxx=c, opt="-O0")))
+        fails = svlib.build_all([b for _, tb, nb in bins for b in (tb, nb)])
+        failed = {b.path(): log for b, log in fails}
+        if BUILD_ONLY:
+            continue
+        for name, tb, nb in bins:
+            n += 1
+            if nb.path() in failed:
+                skipped.append(name)          # the generic path has the requirement as well
+                continue
+            if tb.path() in failed:
+                viol.append({"oracle": "archetype.trivial-twin-rejected", "op": name,
+                             "detail": "the operation compiles for the non-trivial element type but not for its trivially copyable/constructible twin (the fast path adds a requirement): %s [%s -std=c++%s]" % (first_error(failed[tb.path()]), c, sd),
+                             "config": "%s -std=c++%s" % (c, sd), "count": 1, "desc": name,
+                             "replay": {"kind": "compile", "binary": bin_spec(tb)}})
+                continue
+            both += 1
+            ot = subprocess.run([tb.path()], stdout=subprocess.PIPE, stderr=subprocess.STDOUT, text=True)
+            on = subprocess.run([nb.path()], stdout=subprocess.PIPE, stderr=subprocess.STDOUT, text=True)
+            if ot.returncode != 0 or on.returncode != 0 or ot.stdout != on.stdout:
+                viol.append({"oracle": "archetype.twins-differ", "op": name,
+                             "detail": "trivial twin prints `%s`, non-trivial twin prints `%s`" % (ot.stdout.strip()[:150], on.stdout.strip()[:150]),
+                             "config": "%s -std=c++%s" % (c, sd), "count": 1, "desc": name,
+                             "replay": {"kind": "twinprog", "binaries": [bin_spec(tb), bin_spec(nb)]}})
+    cov = {"archetype_grid": {"cases": n, "both_twins_compile_and_agree_or_differ": both, "generic_path_rejects_too": sorted(set(skipped))}}
+    return cov, viol, errs, "archetype grid: %d (operation, archetype) cases" % n
+
+
 def plan_C18b_jobs(tier):
     fl = ("NM", "TM", "MO", "TR") if tier == "quick" else ("NM", "TM", "MO", "MOT", "CO", "TR", "INT")
     cfgs = grid(fl, W1_NS[tier], (1,)) + grid(("NM",), (0, 2), (0,))
@@ -578,7 +753,7 @@ def plan_C18b_jobs(tier):
 
 
 PLANS = {
-    "C07": plan_C07, "C09": plan_C09, "C12": plan_C12, "C14": plan_C14, "C16": plan_C16, "C18": plan_C18, "C19": plan_C19,
+    "C07": plan_C07, "C09": plan_C09, "C12": plan_C12, "C13": plan_C13, "C14": plan_C14, "C16": plan_C16, "C18": plan_C18, "C19": plan_C19,
     "C01": plan_C01, "C02": plan_C02, "C03": plan_C03, "C04": plan_C04, "C05": plan_C05,
     "C06": plan_C06, "C10": plan_C10, "C11": plan_C11, "C15": plan_C15,
 }
@@ -594,6 +769,41 @@ def replay_other(payload):
         r = subprocess.run([b.path()] + [str(a) for a in payload.get("args", [])], stdout=subprocess.PIPE, text=True)
         print(r.stdout)
         return 1 if '"violations":0' not in r.stdout else 0
+    if payload.get("kind") == "twin":
+        import tempfile
+        lines = []
+        for spec in payload["binaries"]:
+            b = Bin(**spec)
+            ok, log = b.build()
+            if not ok:
+                print(log)
+                return 2
+            with tempfile.TemporaryDirectory() as td:
+                subprocess.run([b.path()] + [str(a) for a in payload["args"]] + ["--dump", td + "/d", "--out", td + "/o"],
+                               stdout=subprocess.DEVNULL, stderr=subprocess.DEVNULL)
+                lines.append(open(td + "/d").read().splitlines())
+        for k in range(min(len(lines[0]), len(lines[1]))):
+            if lines[0][k] != lines[1][k]:
+                print("record #%d:\n  non-trivial twin: %s\n  trivial twin:     %s" % (k, lines[0][k], lines[1][k]))
+                return 1
+        print("traces identical" if len(lines[0]) == len(lines[1]) else "trace lengths differ")
+        return 0 if len(lines[0]) == len(lines[1]) else 1
+    if payload.get("kind") == "compile":
+        b = Bin(**payload["binary"])
+        ok, log = b.build()
+        print("compiles" if ok else log[-3000:])
+        return 0 if ok else 1
+    if payload.get("kind") == "twinprog":
+        outs = []
+        for spec in payload["binaries"]:
+            b = Bin(**spec)
+            ok, log = b.build()
+            if not ok:
+                print(log[-2000:])
+                return 1
+            outs.append(subprocess.run([b.path()], stdout=subprocess.PIPE, text=True).stdout)
+        print("trivial twin:\n%s\nnon-trivial twin:\n%s" % (outs[0], outs[1]))
+        return 0 if outs[0] == outs[1] else 1
     if payload.get("kind") == "grid":
         b = Bin(**payload["binary"])
         ok, log = b.build()
